@@ -23,8 +23,9 @@ What is fingerprinted (normalised `ast.unparse` text, docstrings dropped):
   * the values of scoda/config/default_settings.json.
 A body hash of a module-level function that IS translated on every run (util.py) is redundant with its equality theorem; it is kept because a
 translated function may also be called by spelling from untranslated glue.
-Bodies of ordinary methods are NOT fingerprinted: those are either translated (then the equality theorem is the check) or listed in
-docs/translation_coverage.md as modelled by hand.
+  * per method (all of them): the signature with its default expressions (they run at import) and return annotation; and a hash of the body of
+    every method that NO translator re-reads (`untranslated_methods` in the baseline, read off the generated files when the baseline is recorded).
+Bodies of translated methods are NOT fingerprinted: the equality theorem is the check.
 """
 import ast
 import hashlib
@@ -63,7 +64,16 @@ def is_logger(s):
     return isinstance(s, ast.Assign) and len(s.targets) == 1 and isinstance(s.targets[0], ast.Name) and s.targets[0].id in ("LOGGER", "logger")
 
 
-def fingerprint(repo=None):
+def untranslated_methods():
+    """`Class.method` names that no translator emits (read off the generated files' `translated` lists): printing, plotting, the key guess, … —
+    their bodies are hashed, because an edit there can still reach a property through shared module-level state (seeded change C20_agent9)"""
+    import translation_coverage as tc
+    tr = tc.gen_translated()
+    return sorted(q for _, q, _, _ in tc.functions() if "." in q and q not in tr)
+
+
+def fingerprint(repo=None, untranslated=None):
+    """`untranslated`: the list of `Class.method` names whose bodies are hashed (None = all of them)"""
     repo = repo or REPO
     fp = {}
     root = os.path.join(repo, "scoda")
@@ -112,6 +122,13 @@ def fingerprint(repo=None):
                                 c["special"][t.name] = {"decorators": decs, "args": norm(t.args), "body": body_text(t)}
                             elif decs:
                                 c["special"][t.name] = {"decorators": decs}
+                            # the SIGNATURE of every method, defaults included (audit round 5, item 3): a default-argument expression runs when the
+                            # class body runs, i.e. at import, and can do anything (`_hook=setattr(Message, "copy", ...)`); and the return annotation
+                            sig = norm(t.args) + (" -> " + norm(t.returns) if t.returns is not None else "")
+                            c.setdefault("signatures", {})[t.name] = sig
+                            # the BODY of every method that no translator re-reads (listed in the baseline: `untranslated_methods`)
+                            if untranslated is None or f"{s.name}.{t.name}" in untranslated:
+                                c.setdefault("untranslated_bodies", {})[t.name] = hashlib.sha256(body_text(t).encode()).hexdigest()[:16]
                         else:
                             # enum members and other class-level statements; for enums their order and values matter
                             c["class_level"].append(norm(t))
@@ -122,6 +139,17 @@ def fingerprint(repo=None):
                     continue
                 mod["top_level"].append(norm(s))
             fp[rel] = mod
+    # nothing next to the package shadows a module the package imports (`<repo>/mido/`, `<repo>/numpy.py`: the harness puts <repo> first on sys.path)
+    imported = set()
+    for rel, mod in fp.items():
+        for line in mod["imports"]:
+            t = ast.parse(line).body[0]
+            if isinstance(t, ast.Import):
+                imported |= {a.name.split(".")[0] for a in t.names}
+            elif t.level == 0 and t.module:
+                imported.add(t.module.split(".")[0])
+    imported.discard("scoda")
+    fp["shadowed_imports"] = sorted(n for n in imported if os.path.exists(os.path.join(repo, n + ".py")) or os.path.isdir(os.path.join(repo, n)))
     # the settings VALUES are an input of the proofs (Gen/Settings.lean follows them); a changed default is a reviewable event like any other
     # convention (audit round 4, A2)
     cfg = os.path.join(root, "config", "default_settings.json")
@@ -154,15 +182,16 @@ def check(repo=None):
     """list of differences between the recorded conventions and the source now (empty = conventions hold)"""
     with open(BASELINE) as f:
         base = json.load(f)
-    return diff(base["fingerprint"], fingerprint(repo))
+    return diff(base["fingerprint"], fingerprint(repo, set(base.get("untranslated_methods", []))))
 
 
 def main():
     if "--update" in sys.argv:
         import subprocess
         head = subprocess.run(["git", "-C", REPO, "rev-parse", "HEAD"], capture_output=True, text=True).stdout.strip()
+        un = untranslated_methods()
         with open(BASELINE, "w") as f:
-            json.dump({"recorded_from": head, "fingerprint": fingerprint()}, f, indent=1, sort_keys=True)
+            json.dump({"recorded_from": head, "untranslated_methods": un, "fingerprint": fingerprint(None, set(un))}, f, indent=1, sort_keys=True)
         print("baseline recorded from", head)
         return 0
     d = check()
